@@ -79,6 +79,12 @@ def ecefToGeo (p : V3 α) : V3 α :=
   let hgt := pp / T.cos lat - n
   ⟨lon * (180.0 / T.pi), lat * (180.0 / T.pi), hgt⟩
 
+/-- `GeoCoords(0, lat, h).toECEFCoords().toGeoCoords()`: the latitude (degrees) and the height that come back, in the
+meridian plane of longitude 0 (by `TV.C14.geo_ecef_geo_residual` they are the same at every longitude) -/
+def meridianRoundTrip (lat h : α) : α × α :=
+  let q := ecefToGeo T (geoToEcef T ⟨0.0, lat, h⟩)
+  (q.y, q.z)
+
 /-- `base.toECEFCoords()` (a copy for an `ECEFCoords`) -/
 def Base.toEcef : Base α → V3 α
   | .geo c => geoToEcef T c
